@@ -773,6 +773,10 @@ def run(pid, tier, replay=None):
             finally:
                 run_.close()
         nodechk.judge(chk, ntraces, nlabels, nconsts)
+        # the head after a delivery that fails full validation, on a node whose own miner had found the current head before
+        from checks import handover
+        handover.stage_found_before(chk, pid, cfg_model, keys, nodechk.build_universe, lambda w_, b_: b_[7], "reward_above_subsidy_plus_fees",
+                                    clause="C04:head_is_not_the_first_seen_block_of_greatest_height_after_a_delivery_that_fails_full_validation")
         chk.sample({"source": "random tree delivered to a real node with repeated deliveries", "steps": nlabels[0]})
         chk.extra["exhaustive"] = True
         chk.extra["rule"] = ("every sequence in which each new block picks any earlier block as parent (6 blocks after genesis: "
